@@ -591,6 +591,12 @@ def runonce(handlers, mux):
 
     for s in handlers:
         s.pre_select(r, w, x)
+    # A handler's pre_select may itself queue a message for the other end
+    # (Proxy.pre_select -> MuxWrapper.noread() sends TCP_STOP_SENDING) after
+    # the mux, which comes first in the list, has already decided not to wait
+    # for its write side.  Ask the mux again, or select() sleeps while that
+    # message sits in the queue.
+    mux.pre_select(r, w, x)
     debug2('Waiting: %d r=%r w=%r x=%r (fullness=%d/%d)'
            % (len(handlers), _fds(r), _fds(w), _fds(x),
                mux.fullness, mux.too_full))
